@@ -11,3 +11,4 @@ CFG = dict(
     timeout=900,
 )
 CFG["rule"] += ' One rule verb in six is spelled as a custom kind in lower or mixed case (read as the upper-case verb).'
+CFG["rule"] += ' Since round 8 every routing request is preceded, on the same mux, by requests for the same path under POST / GET / LIST (those that are not the request\'s own verb) and is sent twice; the two answers must be the same ("unstable" otherwise). Rule sets include one method with a verb-specific and a catch-all binding of one shape naming different fields.'
